@@ -375,7 +375,7 @@ pub fn spec(prop: &str) -> Option<PropSpec> {
                         Ok(())
                     }
                 }),
-                rule: "states = (unit-only and internally tagged enums with renamed variants, rename_all, 1–6 variants, variants sharing field names with different types, tag colliding with / near a field name, nested in containers; payload: every variant name, identifier, case variation, padded and truncated near-miss, non-string tag of every kind, missing tag, faults in the variant's fields). Oracle: variant selected (visible in the dump), the three tag reports with their locations, UnknownValue with the full ordered name list.",
+                rule: "states = (unit-only and internally tagged enums with renamed variants, rename_all, 1–6 variants, variants sharing field names with different types, tag colliding with / near a field name, nested in containers; payload: every variant name, identifier, case variation, padded and truncated near-miss, non-string tag of every kind, missing tag, faults in the variant's fields). Oracle: variant selected (visible in the dump), the three tag reports with their locations, UnknownValue with the full ordered name list. Names as a language: every string over [a-z0-9] of length ≤ 4 (thorough ≤ 5), and of length 5 (6) starting with a..f, into a generated unit enum with 4096 variants (so that even a 32-bit digest of the name collides with one of the ~10^7 strings), of length ≤ 4 (≤ 5) into the 40-variant unit enum and of length ≤ 3 (≤ 4) as the tag of the 23-variant tagged enum: accepted iff it is one of the names, and then selects that variant.",
             }
         }
         "C11" => {
@@ -426,6 +426,9 @@ pub fn run_catalogue(e: &Engine, prop: &str) -> i32 {
         &SweepCfg { property: sp.id, select: &select, scripts: sp.scripts, sources: &[Src::Json, Src::Ov], adversarial: sp.adversarial, check: &*sp.check },
         &rec,
     );
+    if sp.id == "C10" {
+        crate::names::run_name_sweep(e, &rec);
+    }
     if sp.id == "C12" {
         crate::deep::run_deep(e, &rec);
         crate::deep::run_builtin_totality(e, &rec);
